@@ -36,7 +36,6 @@ let verdict_str = function
   | VTooBig (fo, pl) -> Printf.sprintf "toobig:%s:%s:65535" (s_of_n fo) (s_of_n pl)
   | VUnaligned (fo, pl) -> Printf.sprintf "unaligned:%s:%s" (s_of_n fo) (s_of_n pl)
   | VConflict (p, e) -> Printf.sprintf "conflict:%s:%s" (s_of_n p) (s_of_n e)
-  | VLateEnd (h, e) -> Printf.sprintf "late:%s:%s" (s_of_n h) (s_of_n e)
   | VPanic -> "panic"
 
 let colon s = String.split_on_char ':' s
@@ -75,11 +74,15 @@ let run_buf (args : string list) : string =
             (match b'.b_end with None -> "-" | Some e -> s_of_n e)
             (List.length b'.b_data) (sections_str b'.b_sections) (datastr b'.b_data) :: !mout;
         if with_spec then begin
+          let late = (!st).s_end = None in
           let (sv, st') = spec_add !st f in
           st := st';
           let sc = spec_complete st' in
-          sout := Printf.sprintf "%s c=%d p=%s" (verdict_str sv) (if sc then 1 else 0)
-              (if sc then datastr (spec_payload st') else "-") :: !sout
+          (* l=1: the Spec rejects a final fragment that ends below data accepted earlier
+             (the regression class of the former finding F8) *)
+          let late = late && (match sv with VConflict (_, _) -> true | _ -> false) in
+          sout := Printf.sprintf "%s c=%d p=%s l=%d" (verdict_str sv) (if sc then 1 else 0)
+              (if sc then datastr (spec_payload st') else "-") (if late then 1 else 0) :: !sout
         end) frags;
     String.concat " ; " (List.rev !mout) ^ " | " ^ (if with_spec then String.concat " ; " (List.rev !sout) else "-")
   | _ -> failwith "buf case"
@@ -146,9 +149,11 @@ let run_pool (args : string list) : string =
           (match r with PDone (_, _, pl) -> held := pl :: !held | _ -> ());
           mout := pres_str r :: !mout;
           if with_spec then begin
+            let late = (match alookup k.k_id !sp with Some (st, _) -> st.s_end = None | None -> true) in
             let (sr, sp') = spec_process !sp k ts in
             sp := sp';
-            sout := pres_str sr :: !sout
+            let late = late && (match sr with PErr (VConflict (_, _)) -> true | _ -> false) in
+            sout := (pres_str sr ^ (if late then " late=1" else "")) :: !sout
           end
         | ["r"] ->
           (match !held with
